@@ -943,6 +943,37 @@ fn root_witness() -> Vec<f32> {
     layout_floats(t.unrounded_layout(root))
 }
 
+/// Witness of C05_attach_below_hidden_refuted (Props/C05.v; known finding C01/hidden-region-stale) on the implementation:
+/// root > hidden (display:none) > mid, laid out; a subtree sub > leaf (5 x 5) laid out as a root of its own; then
+/// set_children(target, [sub]); mark_dirty(root); compute_layout(root).  With target = mid (two levels below the clean
+/// display:none node: mark_dirty stops at mid's empty cache) the leaf keeps its 5 x 5 layout inside a display:none region;
+/// with target = hidden it is zeroed.  Returns the leaf's (width, height) in both scenarios.
+fn stale_witness() -> [f32; 4] {
+    let mut out = [0.0f32; 4];
+    for (k, below_mid) in [true, false].into_iter().enumerate() {
+        let mut t: TaffyTree<()> = TaffyTree::new();
+        t.disable_rounding();
+        let mid = t.new_with_children(Style::DEFAULT, &[]).unwrap();
+        let mut hs = Style::DEFAULT;
+        hs.display = Display::None;
+        let hidden = t.new_with_children(hs, &[mid]).unwrap();
+        let root = t.new_with_children(Style::DEFAULT, &[hidden]).unwrap();
+        t.compute_layout(root, Size::MAX_CONTENT).unwrap();
+        let mut ls = Style::DEFAULT;
+        ls.size = Size::from_lengths(5.0, 5.0);
+        let leaf = t.new_leaf(ls).unwrap();
+        let sub = t.new_with_children(Style::DEFAULT, &[leaf]).unwrap();
+        t.compute_layout(sub, Size::MAX_CONTENT).unwrap();
+        t.set_children(if below_mid { mid } else { hidden }, &[sub]).unwrap();
+        t.mark_dirty(root).unwrap();
+        t.compute_layout(root, Size::MAX_CONTENT).unwrap();
+        let l = t.unrounded_layout(leaf);
+        out[2 * k] = l.size.width;
+        out[2 * k + 1] = l.size.height;
+    }
+    out
+}
+
 pub fn main05(args: &[String]) {
     std::panic::set_hook(Box::new(|_| {}));
     match args[0].as_str() {
@@ -952,6 +983,11 @@ pub fn main05(args: &[String]) {
             // x y w h cw ch | sbw sbh | border l r t b | padding l r t b | margin l r t b
             println!("W {}", f.iter().map(|x| x.to_bits().to_string()).collect::<Vec<_>>().join(" "));
             println!("display:none root leaf: {:?}", f);
+        }
+        "stalewitness" => {
+            let f = stale_witness();
+            println!("S {} {} {} {}", f[0].to_bits(), f[1].to_bits(), f[2].to_bits(), f[3].to_bits());
+            println!("leaf attached two levels below a clean display:none node: {} x {}; attached to the display:none node: {} x {}", f[0], f[1], f[2], f[3]);
         }
         "one" => one(5, args),
         "cases" => {
